@@ -234,6 +234,7 @@ def c18(ctx):
     misc2.r_shuf(ctx)
     purity.r_pure(ctx, [SW + 'create_random_shuffles'], floor=1)
     walk.r_sel(ctx)
+    walk.r_walk(ctx, [SW + 'encode', SW + 'decode'], {SW + 'encode': 2, SW + 'decode': 2})    # with a table the strand still is a walk
 
 
 def c19(ctx):
